@@ -189,12 +189,10 @@ func Main(args []string) int {
 	rep.Set("transitions", is.transitions+bs.transitions+ps.transactions)
 	rep.Set("traces_validated_against_impl", seqs+bs.executions+ps.runs)
 	rep.Set("evaluations", seqs+bs.executions+ps.runs)
-	rep.Set("distinct_nontrivial", is.nontrivial+(ps.reverted+ps.oog+ps.invalid+ps.created+ps.destructed+ps.logged+int64(ps.finalStates.len()))*0+nontrivialPrograms(ps))
+	rep.Set("distinct_nontrivial", is.nontrivial+int64(ps.finalStates.len()))
 	rep.Set("rule", "interface level: every sequence over the listed alphabet up to the listed length whose proper prefixes agree is executed once on both back-ends (distinct by construction); non-trivial = the reference's getters after the sequence differ from the starting state. program level: every snippet list up to the listed length x {plain,ctor} deployment x {same,split} blocks, run as deploy+call+call; non-trivial = distinct final outcome digests (all compared fields of all transactions) among agreeing runs. distinct_nontrivial is the sum of both measured counts.")
-	exhaustive := ifaceExhaustive && progExhaustive && is.diverged == 0 && ps.diverged == 0
 	rep.Set("exhaustive", ifaceExhaustive && progExhaustive)
 	rep.Set("exhaustive_note", "exhaustive = every sequence/program inside the bounds below was executed, except the extensions of sequences on which the back-ends already disagree (those are reported and not extended: see iface.diverged_sequences_not_extended); the merged BFS is a non-exhaustive extension and does not enter this flag")
-	_ = exhaustive
 	caps := []string{}
 	if !ifaceExhaustive {
 		caps = append(caps, "iface: internal deadline")
@@ -207,25 +205,28 @@ func Main(args []string) int {
 	}
 	rep.Set("caps_hit", caps)
 	rep.Set("bounds", map[string]interface{}{
-		"iface_full_alphabet_len": fullLen,
-		"iface_core_alphabet_len": coreLen,
-		"iface_full_alphabet":     opStrings(alphabet("full")),
-		"iface_core_alphabet":     opStrings(alphabet("core")),
-		"iface_dynamic_ops":       "RevertToSnapshot(#i) for every currently valid snapshot i; SubBalance/SubRefund only when legal",
-		"iface_world":             "A=funded EOA (native balance 1, no keeper record), B=contract (balance 1, nonce 1, code 0x00, slot0=1), C=fresh; slots {0,1}; values {0,1,2}; codes {none,0x00,0x600000}",
-		"bfs_alphabet":            opStrings(alphabet("bfs")),
-		"bfs_max_depth":           bfsDepth,
-		"program_max_snippets":    progLen,
-		"program_snippets":        snippetDocs(),
-		"program_transactions":    "deploy (value 1), call (value 1), call (value 1); gas 300000, gas price 2",
-		"program_deploy_modes":    []string{"plain", "ctor"},
-		"program_block_modes":     []string{"same", "split"},
-		"workers":                 workers,
-		"budget_s":                budget.Seconds(),
-		"completed_full_len":      is.completedFullLen,
-		"completed_core_len":      is.completedCoreLen,
-		"completed_program_len":   ps.completedLen,
-		"completed_bfs_levels":    bs.levelsCompleted,
+		"iface_full_alphabet_len":  fullLen,
+		"iface_core_alphabet_len":  coreLen,
+		"iface_full_alphabet":      opStrings(alphabet("full")),
+		"iface_core_alphabet":      opStrings(alphabet("core")),
+		"iface_core5_alphabet_len": core5Len,
+		"iface_core5_alphabet":     opStrings(alphabet("core5")),
+		"completed_core5_len":      is.completedCore5Len,
+		"iface_dynamic_ops":        "RevertToSnapshot(#i) for every currently valid snapshot i; SubBalance/SubRefund only when legal; CreateAccount (= CreateAccount+SetNonce 1, as in evm.create) only on addresses without nonce and code; SetState only on existing accounts",
+		"iface_world":              "A=funded EOA (native balance 1, no keeper record), B=contract (balance 1, nonce 1, code 0x00, slot0=1), C=fresh; 2 storage keys (slot0=0x01, slot1=0x02); values {0,1,2}; codes {none,0x00,0x600000}",
+		"bfs_alphabet":             opStrings(alphabet("bfs")),
+		"bfs_max_depth":            bfsDepth,
+		"program_max_snippets":     progLen,
+		"program_snippets":         snippetDocs(),
+		"program_transactions":     "deploy (value 1), call (value 1), call (value 1); gas 300000, gas price 2",
+		"program_deploy_modes":     []string{"plain", "ctor"},
+		"program_block_modes":      []string{"same", "split"},
+		"workers":                  workers,
+		"budget_s":                 budget.Seconds(),
+		"completed_full_len":       is.completedFullLen,
+		"completed_core_len":       is.completedCoreLen,
+		"completed_program_len":    ps.completedLen,
+		"completed_bfs_levels":     bs.levelsCompleted,
 	})
 	rep.Set("iface", map[string]interface{}{
 		"sequences":                                seqs,
@@ -275,12 +276,11 @@ func Main(args []string) int {
 	rep.Assume("adapter wired as in app/context.go over one storage.State per block (WithGas, unlimited gas calculator) with a tx session per transaction as in app/controller.go txDeliverer; native fee handling after the transaction (action.ContractFeeHandling) is not part of this check (C17)")
 	rep.Assume("SubBalance below zero and SubRefund below zero are never generated (the EVM checks CanTransfer first; go-ethereum itself panics on a negative refund)")
 	rep.Assume("ForEachStorage (used by neither the EVM nor the app) is compared only right after a block commit: storage.State.IterateRange cannot see keys that live only in the block cache (storage/state.go IterateRange 'todo'), go-ethereum iterates the trie")
+	rep.Assume("SetState is only generated on existing accounts (the EVM stores only into the executing account; on a missing account go-ethereum re-creates an object that a no-op SetState leaves undirtied and therefore alive in memory only)")
 	rep.Assume("CreateAccount(X) is always followed by SetNonce(X,1) and only generated where X has no nonce and no code, exactly as go-ethereum's EVM calls it (core/vm/evm.go create): go-ethereum's own state keeps a re-created but otherwise untouched object alive in memory only, an artefact the EVM cannot expose")
 	rep.Assume("sequences on which the back-ends already disagree are not extended; longer sequences through such a prefix are unexplored until the divergence is repaired")
 	return rep.Finish()
 }
-
-func nontrivialPrograms(ps *progStats) int64 { return int64(ps.finalStates.len()) }
 
 func snippetDocs() []string {
 	var out []string
